@@ -358,6 +358,11 @@ func (r *sessRunner) step(ev *sessEvent, created map[string]bool) {
 			if fault == "undecodable" && !r.handler {
 				fault = "badvvec" // typed keys at the process level: nothing undecodable can be handed over
 			}
+			if fault == "undecodable" && !active && r.find(pre, ev.Acct) != nil {
+				// an expired generation that is still in the table: it is purged when the next message looks it up; a
+				// request the handler cannot even decode never gets that far, and the model purges on every message
+				fault = "badvvec"
+			}
 			share, vv := harnessContribution(thr, r.n.ID, fault)
 			if r.handler {
 				req := &pb.ContributeRequest{Account: ev.Acct, Secret: share.Serialize()}
